@@ -46,7 +46,10 @@ Definition scanner_regexes : list (string * string * string) := [
   ("type", "compile", "\}\s*(\w+)\s*;$");
   ("type", "compile", "(\S+)\s+{0}([\[<].*[\]>]|);   .format(variable)");
   ("isarray", "compile", "char[\[<]\d*[\]>][\[<]\d*[\]>]");
-  ("isenum", "search", "typedef\s+enum\s*\{([^}]+)\}\s*(\w+)\s*;");
+  ("isenum", "search", "typedef\s+enum\s*\{([^}]+)\}\s*(\w+)\s*;")
+] ++ (* round 5: entry 8b, present iff isenum() strips comments from the block body (fixes/C02-enum-block-comments.diff):
+        Parse.drop_hash_comments, switched by the generated flag yanny_enum_strips_comments in Parse.enum_entry *)
+  (if yanny_enum_strips_comments then [("isenum", "sub", "#[^\n]*")] else []) ++ [
   ("isenum", "split", ",\s*");
   ("_parse", "sub", "\\\s*\n");
   ("_parse", "findall", "typedef\s+struct\s*\{[^}]+\}\s*\w+\s*;");
